@@ -17,8 +17,12 @@ _SCRATCH = []
 
 
 def _cleanup():
-    for d in _SCRATCH:
-        shutil.rmtree(d, ignore_errors=True)
+    # only what THIS process built: a forked worker inherits the list of its parent, whose directories other workers may still load from
+    me = os.getpid()
+    for pid, d in list(_SCRATCH):
+        if pid == me:
+            shutil.rmtree(d, ignore_errors=True)
+            _SCRATCH.remove((pid, d))
 
 
 atexit.register(_cleanup)
@@ -30,7 +34,7 @@ def build(kind):
     src = os.path.join(REPO, 'wntr', 'sim', kind)
     base = 'network_isolation' if kind == 'network_isolation' else 'evaluator'
     d = tempfile.mkdtemp(prefix='vfcxx.', dir='/var/tmp')
-    _SCRATCH.append(d)
+    _SCRATCH.append((os.getpid(), d))
     pkg = os.path.join(d, 'vfcxx_' + kind)
     os.makedirs(pkg)
     open(os.path.join(pkg, '__init__.py'), 'w').write('')
